@@ -140,7 +140,10 @@ fn check_state(u: u8, r: &Real, obs: &(Vec<Vec<u8>>, Vec<Vec<usize>>), with_clas
             }
         }
         if with_classes {
-            for q in seqs3(u) {
+            // every duplicate-free query of <= 3 elements for universes of <= 3 elements; for larger universes
+            // (fixpoint runs with tens of millions of transitions) the two full queries in both orders
+            let queries: Vec<Vec<u8>> = if u <= 3 { seqs3(u) } else { vec![(0..u).collect(), (0..u).rev().collect(), vec![u - 1, 0, u / 2]] };
+            for q in queries {
                 let mut exp: Vec<Vec<u8>> = vec![];
                 for &e in &q {
                     if let Some(c) = exp.iter_mut().find(|c| rf[c[0] as usize] == rf[e as usize]) {
@@ -305,7 +308,9 @@ fn run_fixpoint(ctx: &mut Ctx, u: u8, max_instances: usize) {
     let mut counts = vec![];
     // run twice and compare the counts: a nondeterministic model would make stateright's
     // path reconstruction (re-execution) unreliable
-    for _ in 0..2 {
+    // (the second run is skipped for the large thorough-tier spaces: it doubles an hour-scale cost)
+    let rounds = if u as usize * max_instances > 6 { 1 } else { 2 };
+    for _ in 0..rounds {
         let c = M { u, max_instances }.checker().threads(threads).spawn_bfs().join();
         counts.push((c.unique_state_count(), c.max_depth()));
         if let Some(p) = c.discovery("oracle") {
@@ -325,7 +330,7 @@ fn run_fixpoint(ctx: &mut Ctx, u: u8, max_instances: usize) {
         }
     }
     // (max_depth may differ between parallel BFS runs; the set of states may not)
-    if counts[0].0 != counts[1].0 {
+    if counts.len() == 2 && counts[0].0 != counts[1].0 {
         panic!("stateright runs disagree: {:?}", counts);
     }
 }
